@@ -28,7 +28,7 @@ def instances(tier):
           "reg_count_areas": 4, "reg_count_entries": nreg + 2, "reg_entry_is_in_memory": 4,
           "ra_find_area_by_addr": 4, "ra_first_entry_of_next": nreg + 2, "vp_build": max(nreg, 2) + 3,
           "vp_desc_wellformed": max(nreg, 2) + 2, "family": max(nreg, 2) + 2, "ref_area_of": 4,
-          "vp_custom_read": 6, "vp_custom_write": 6, "vp_snap": nreg + 2, "vp_mem_equal": aw + 2,
+          "vp_custom_read": 6, "vp_custom_write": 6, "vp_snap": max(aw, nreg) + 2, "vp_mem_equal": aw + 2,
           "harness": aw + 3, "ref_layout_ok": max(nreg, 2) + 2, "vp_link_direct": max(nreg, 2) + 2, "ref_area_first": nreg + 2, "ref_decode": 10, "ref_entry_octets": 10}
     out = []
     names = ["u16", "u32", "u64", "s16", "s32", "s64", "f32", "f64"]
